@@ -41,7 +41,7 @@ package airgapped
 //@ func (*Machine).storeOperation
 //@   nosafety
 //@   requires am != nil
-//@   requires[C12.log.after] $handled
+//@   requires[C12.log.after,C18.airgapped.noop] $handled
 //@   modifies *
 //@   modifies $logged
 // the round's log only grows at its end: what is written back is the log as read, followed by this operation
